@@ -378,7 +378,13 @@ class LibRDEngine(RDEngineBase) :
         if n_iterations <= 0 :
             # no iteration is run: the completion status is left as it is.
             return bool(self._simulation_unfinished)
-        self._simulation_unfinished = self._lib.engineexport_iterate_n(n_iterations)
+        # the library takes a C int: larger counts are passed in chunks instead of being truncated modulo 2**32.
+        c_int_max = 2**31-1
+        while n_iterations > 0 :
+            self._simulation_unfinished = self._lib.engineexport_iterate_n(min(n_iterations, c_int_max))
+            n_iterations -= c_int_max
+            if not self._simulation_unfinished :
+                break
         return bool(self._simulation_unfinished)
 
 
